@@ -2,6 +2,7 @@ import CatiiProofs.IIndexEq
 import CatiiProofs.IIndexShift
 import CatiiProofs.IIndexWf
 import CatiiProofs.Counting
+import CatiiProofs.PickCommon
 /-!
 # C15 — library-chosen common value; equality is canonical
 
@@ -16,8 +17,11 @@ so it never raises; comparison is reflexive, symmetric and transitive.
 every key carries the number of cells of the dense array holding it (`Counting.counter_exact`, from
 well-formedness: each listed cell is listed once).  Hence `chosen_is_most_frequent`: the chosen value occurs in
 the dense array at least as often as every other value, and after `shift_common()` the stored common value is
-such a value (`normalised_common_is_most_frequent`).  The common value `from_array` picks from the (mapped)
-value counts is tied to the model by the correspondence and checked by the oracle on the real code.
+such a value (`normalised_common_is_most_frequent`).  `from_array_common_is_most_frequent`: when no common value
+is given, the value `from_array` picks occurs among the (mapped) values of the array at least as often as every
+other one — `bincount`/`unique` counts are exact (`countValues_exact`), counts of values mapped to the same
+target add up (`finalCounts_exact`), and the first strict maximum is a maximum.  `append`, `filtered` and
+`collapsed` end with `shift_common()` / `from_array`, so they inherit these theorems.
 -/
 namespace Catii.C15
 open Catii.IIdx
@@ -148,6 +152,14 @@ theorem normalised_common_is_most_frequent (i : IIndex) (h : WF i) (hnd : i.ndim
       exact hd row h1 hi (by rw [← hshape]; exact hhi)) x
   rw [← countCells_eq_count, ← countCells_eq_count, hcong, hcong, hcommon, countCells_eq_count, countCells_eq_count]
   exact chosen_is_most_frequent i h v hv u
+
+/-- **building from an array without a common value** picks a most frequent (mapped) value, whether the counts are
+computed by the library or supplied (exactly) by the caller, with or without a value mapping -/
+theorem from_array_common_is_most_frequent (a : Arr) (o : FromOpts) (idx : IIndex) (w : Bool)
+    (h : fromArray a o = .ok (idx, w)) (hc : o.common = none) (hne : a.data ≠ [])
+    (hcounts : ∀ c, o.counts = some c → ExactCounts a.data c) (u : Int) :
+    (a.data.map (mapD o.mapping)).count u ≤ (a.data.map (mapD o.mapping)).count idx.common :=
+  fromArray_common_most_frequent a o idx w h hc hne hcounts u
 
 /-- re-normalising never changes content or well-formedness, whatever value is picked -/
 theorem normalisation_is_invisible (i : IIndex) (h : WF i) (hnd : i.ndim ≤ 2) (r : IIndex)
